@@ -446,6 +446,9 @@ def builtin(ev, name, args, kwargs, lineno, env):
             return list(a.concrete_iter()) if name == "list" else tuple(a.concrete_iter())
         raise Unsupported("%s(%r)" % (name, a))
     if name == "dict":
+        if not args and not kwargs and getattr(ev, "dict_universe", None):
+            from .symdict import SymDict
+            return SymDict.from_concrete(ev.dict_universe, {}, "fresh")
         if not args:
             return dict(kwargs)
         if isinstance(args[0], dict):
@@ -461,6 +464,8 @@ def builtin(ev, name, args, kwargs, lineno, env):
         a = args[0]
         if hasattr(a, "keyset"):
             return a.keyset()
+        if type(a).__name__ == "KeySet":
+            return a
         return set(ev.iterate(a) if not isinstance(a, (list, tuple, set, dict)) else a)
     if name == "isinstance":
         return _isinstance(args[0], args[1])
